@@ -45,7 +45,7 @@ def _p(fn, expl, chk=False, assumptions=None):
 
 
 PROPS.update({
-    "C02": _p(inputs.c02_families, "C02_value / C02_lower / C02_attained: general proof (best-of loop invariant, completeness of the regenerated "
+    "C02": _p(inputs.c02_families, "C02_value / C02_lower / C02_attained / C02_slot_order: general proof (best-of loop invariant, completeness of the regenerated "
               "slot tables lifted through select, sub-sequence / permutation lemmas, permutation invariance of the five-card value)."),
     "C03": _p(inputs.c03_families, "C03_five_identity, C03_witness: the remembered candidate is a sub-sequence of the input; its descending sort is a "
               "permutation (value invariant) and non-increasing. The reported hand is compared exactly."),
